@@ -185,8 +185,8 @@ class EnsembleSampler(MarkovChain):
         # sample the stretch distance
         z = 0.5 * (self.x_lwr + self.x_width * self.rng.random()) ** 2
         prop = self.process_proposal(
-            self.walker_positions[i, :]
-            + z * (self.walker_positions[j, :] - self.walker_positions[i, :])
+            self.walker_positions[j, :]
+            + z * (self.walker_positions[i, :] - self.walker_positions[j, :])
         )
         return prop, z
 
